@@ -61,6 +61,10 @@ def check(prop, tier, replay=None):
                     r.rate = rng.choice([70, 12.5])          # a group's rate is the rate of its members that state none
             if rng.random() < 0.3:
                 p.global_rate = rng.choice([80.0, 45])       # 'rate' at global scope: the default of every resource
+            solo = [t for t in p.tasks if not t.kids and len(t.alloc) == 1 and not t.alt]
+            if solo and rng.random() < 0.25:
+                t = rng.choice(solo)
+                t.alloc = [t.alloc[0], t.alloc[0]]            # the same resource named twice: it works (and costs) once
             if rng.random() < 0.5:
                 p = gen.renamed(p, rng, reuse_across_parents=True)      # same leaf id under different containers
             scen_ids = ()
